@@ -71,6 +71,43 @@ class SymBV:
             return SymFP.lift(o) - self.to_fp()
         return SymBV(SymBV.lift(o).z - self.z)
 
+    def __and__(self, o):
+        return SymBV(self.z & SymBV.lift(o).z)
+
+    __rand__ = __and__
+
+    def __or__(self, o):
+        return SymBV(self.z | SymBV.lift(o).z)
+
+    __ror__ = __or__
+
+    def __xor__(self, o):
+        return SymBV(self.z ^ SymBV.lift(o).z)
+
+    def __rshift__(self, o):
+        return SymBV(self.z >> SymBV.lift(o).z)  # arithmetic shift, as numpy int64
+
+    def __lshift__(self, o):
+        return SymBV(self.z << SymBV.lift(o).z)
+
+    def __neg__(self):
+        return SymBV(-self.z)
+
+    def __mul__(self, o):
+        if isinstance(o, (SymFP, float, np.floating)):
+            return self.to_fp() * o
+        return SymBV(self.z * SymBV.lift(o).z)
+
+    __rmul__ = __mul__
+
+    def astype(self, dtype, *a, **k):
+        dt = np.dtype(dtype)
+        if dt.kind in "iu":
+            return self
+        if dt.kind == "f":
+            return self.to_fp()
+        raise HarnessError(f"SymBV.astype({dtype})")
+
     def __eq__(self, o):
         return SymBool(self.z == SymBV.lift(o).z)
 
